@@ -408,7 +408,25 @@ def r36(ctx):
     occ, pin = params[0], params[2]
     rets = [r.value.id for r in walk_local(f) if isinstance(r, ast.Return) and isinstance(r.value, ast.Name)]
     outname = rets[0] if rets else None
-    stores = [n for n in walk_local(f) if isinstance(n, ast.Assign) and any(isinstance(t, ast.Subscript) and isinstance(t.value, ast.Subscript) and path_of(t.value.value) == occ for t in n.targets)]
+    # names bound to one occupation list of the table: `for lst in engine_occ.values()` / `lst = engine_occ[k]`
+    occ_lists = set()
+    for n in walk_local(f):
+        if isinstance(n, ast.For) and isinstance(n.iter, ast.Call) and isinstance(n.iter.func, ast.Attribute) and n.iter.func.attr == "values" and path_of(n.iter.func.value) == occ and isinstance(n.target, ast.Name):
+            occ_lists.add(n.target.id)
+        if isinstance(n, ast.For) and isinstance(n.iter, ast.Call) and isinstance(n.iter.func, ast.Attribute) and n.iter.func.attr == "items" and path_of(n.iter.func.value) == occ and isinstance(n.target, ast.Tuple) and len(n.target.elts) == 2 and isinstance(n.target.elts[1], ast.Name):
+            occ_lists.add(n.target.elts[1].id)
+        if isinstance(n, ast.Assign) and isinstance(n.targets[0], ast.Name) and isinstance(n.value, ast.Subscript) and path_of(n.value.value) == occ:
+            occ_lists.add(n.targets[0].id)
+
+    def is_slot(t):
+        """engine_occ[key][i]  or  <occupation list>[i]"""
+        if not isinstance(t, ast.Subscript):
+            return False
+        if isinstance(t.value, ast.Subscript) and path_of(t.value.value) == occ:
+            return True
+        return isinstance(t.value, ast.Name) and t.value.id in occ_lists
+
+    stores = [n for n in walk_local(f) if isinstance(n, ast.Assign) and any(is_slot(t) for t in n.targets)]
     claims = [s for s in stores if not (isinstance(s.value, ast.UnaryOp) or (isinstance(s.value, ast.Constant) and s.value.value == -1))]
     frees = [s for s in stores if s not in claims]
     if not claims or not frees:
@@ -416,11 +434,15 @@ def r36(ctx):
     for s in claims:
         n = cfg.node_of(s)
         t = s.targets[0]
-        key, idx = ast.unparse(t.value.slice), ast.unparse(t.slice)
+        if not isinstance(t.value, ast.Subscript):
+            # claimed through an alias of the list: the loop below must enumerate that same alias
+            key, idx = None, ast.unparse(t.slice)
+        else:
+            key, idx = ast.unparse(t.value.slice), ast.unparse(t.slice)
         # loop providing (idx, occupied_by) over engine_occ[key]
         ok = False
         for l in loops_of(s):
-            if isinstance(l, ast.For) and isinstance(l.iter, ast.Call) and dotted(l.iter.func) == "enumerate" and l.iter.args and ast.unparse(l.iter.args[0]) == f"{occ}[{key}]":
+            if isinstance(l, ast.For) and isinstance(l.iter, ast.Call) and dotted(l.iter.func) == "enumerate" and l.iter.args and ast.unparse(l.iter.args[0]) == (f"{occ}[{key}]" if key is not None else ast.unparse(t.value)):
                 if isinstance(l.target, ast.Tuple) and len(l.target.elts) == 2 and ast.unparse(l.target.elts[0]) == idx:
                     occvar = ast.unparse(l.target.elts[1])
                     for e, truth, bn in cfg.guards(n):
